@@ -5,7 +5,8 @@ services, two browsers (a `ServiceListener` and a handler) and a service-info lo
 virtual-time simulator; a hostile datagram stream (C02's generators: random bytes, wire-built and
 encoder-built messages plain and mutated, pointer graphs and chains; mutated copies of the instance's own
 captured traffic; well-formed queries/responses about the instance's names; the D8 / D8b label shapes;
-oversize datagrams; valid announce / goodbye / goodbye+live / live+goodbye / live+live datagrams about one instance of the browsed type; bursts of
+oversize datagrams; runs of 3-12 byte-identical copies of one well-formed query at gaps 300/900/999/1000/1001 ms from several legacy-unicast
+sources; valid announce / goodbye / goodbye+live / live+goodbye / live+live datagrams about one instance of the browsed type; bursts of
 valid QM queries at gaps around 0/50/400/450/480 ms that fill the aggregation queue) is delivered from mDNS and non-mDNS source ports at random gaps.  Observed: every
 exception that leaves `datagram_received`, every context that reaches the loop exception handler, that an
 oversize datagram changes nothing, and after the stream the two canaries: a well-formed query is answered,
@@ -214,7 +215,10 @@ def burst_packets(rng, names):
     return out
 
 
-KINDS = ["cycle", "cycle", "cycle", "burst", "burst", "rand", "c02valid", "c02mut", "c02out", "c02outmut", "graph", "chain", "live", "livemut", "livemut", "query", "query", "querymut",
+REP_GAPS = [300, 900, 900, 999, 1000, 1001]
+REP_SRCS = [("10.9.9.9", 40000), (PEER, 40000), ("10.7.7.7", 40001), (PEER, 53), ("10.9.9.9", 40002)]
+
+KINDS = ["cycle", "cycle", "cycle", "burst", "burst", "canrep", "canrep", "rand", "c02valid", "c02mut", "c02out", "c02outmut", "graph", "chain", "live", "livemut", "livemut", "query", "query", "querymut",
          "resp", "hostile", "hostile", "lookup", "d8", "d8b", "oversize", "repeat"]
 
 
@@ -295,7 +299,7 @@ def simulate(case):
 
     sim = vsim.Sim(seed=case["seed"] * 100003 + case["idx"], maxdelay=case.get("maxdelay", 0), loopback=True)
     rng = C.rng_for(case["seed"], "c15items", case["idx"])
-    obs = {"items": [], "escapes": [], "callbacks": [], "blocks": [], "oversize": [], "live": 0, "kinds": {}}
+    obs = {"fam": [], "items": [], "escapes": [], "callbacks": [], "blocks": [], "oversize": [], "live": 0, "kinds": {}}
     saved = []
     cur = {"down": None, "ucast": None}
 
@@ -435,6 +439,21 @@ def simulate(case):
             t = await zc.async_register_service(info)
             await t
         names = [TA, infos[0].name, "ha.local.", "_services._dns-sd._udp.local.", infos[-1].name, TB]
+        # the query that is repeated byte for byte inside the streams (kind "canrep"): QM SRV for the first service, fixed id
+        fam_q = hdr((case.get("canary_id", 4242) + 7) & 0xFFFF, 0, 1) + q(labels_of(infos[0].name), 33)
+
+        def replied_to(n0, src):
+            """was a response carrying the first service's SRV sent to `src` since log position n0?"""
+            for (tm, s_, ip, p_, d_) in sim.net.log[n0:]:
+                if (ip, p_) != tuple(src):
+                    continue
+                try:
+                    m = DNSIncoming(d_)
+                    if m.valid and not m.is_query() and any(x.type == 33 and x.ttl > 0 and x.name.lower() == infos[0].name.lower() for x in m.answers()):
+                        return True
+                except Exception:
+                    pass
+            return False
         browsers = [AsyncServiceBrowser(zc, [TB], listener=L()), AsyncServiceBrowser(zc, [TB, TA] if case["browse_own"] else [TB], handlers=[handler])]
         await sim.sleep_ms(case["start"])
         lookup = None
@@ -463,6 +482,14 @@ def simulate(case):
                 if kind0 == "cycle":
                     kind, data = cycle_packet(rng)
                     subs = [(rng.choice(GAPS), kind, data, (PEER, 5353))]
+                elif kind0 == "canrep":
+                    # a run of byte-identical copies of one well-formed non-QU query from legacy-unicast sources (each processed copy is
+                    # answered by unicast inside its block, which makes "answered" directly observable), gaps around the 1 s guard window
+                    run_src = rng.choice(REP_SRCS)
+                    subs = []
+                    for k_ in range(rng.choice([3, 4, 6, 9, 12])):
+                        s_ = run_src if rng.random() < 0.7 else rng.choice(REP_SRCS)
+                        subs.append((rng.choice(REP_GAPS) if k_ else rng.choice(GAPS), "canrep", fam_q, s_))
                 elif kind0 == "burst":
                     bsrc = (rng.choice([PEER, "10.9.9.9"]), 5353)
                     subs = [(g, "burst", d, bsrc) for g, d in burst_packets(rng, names)]
@@ -478,9 +505,13 @@ def simulate(case):
                 obs["items"].append({"gap": gap, "data": data.hex(), "src": list(src), "kind": kind})
                 obs["kinds"][kind] = obs["kinds"].get(kind, 0) + 1
                 last = data
+                n_log = len(sim.net.log)
                 r = deliver(data, src)
                 if r is not None:
                     obs["escapes"].append({"index": len(obs["items"]) - 1, "exc": r, "kind": kind, "len": len(data)})
+                if data == fam_q:
+                    obs["fam"].append({"index": len(obs["items"]) - 1, "t": sim.now(), "src": list(src),
+                                       "replied": replied_to(n_log, src) if src[1] != 5353 else None})
         await sim.sleep_ms(case["tail"])
         obs["live"] = len(live)
         # ---- canaries 1a/1b: well-formed queries are still answered -- through the aggregated multicast path (QM PTR) and through
@@ -566,6 +597,21 @@ def judge(obs):
         bad.append(("C15:canary-ptr-query-unanswered", "a well-formed QM PTR query (aggregated multicast path) sent after the stream got no answer within 3 s"))
     if not obs.get("canary_q"):
         bad.append(("C15:canary-query-unanswered", "a well-formed SRV query sent after the stream got no answer within 3 s"))
+    # spec-level duplicate rule, tracked from the observed replies only: a well-formed non-QU query from a legacy-unicast source must be
+    # answered (unicast, inside its block) unless a byte-identical datagram was answered less than 1 s earlier.  Copies from port 5353 are not
+    # observable this way; they are counted as answered (they may legitimately have restarted the window).
+    last_ans = None
+    for f in obs.get("fam", []):
+        if f["replied"] is None:
+            last_ans = f["t"]
+            continue
+        if f["replied"]:
+            last_ans = f["t"]
+        elif last_ans is None or f["t"] - last_ans >= 1000:
+            bad.append(("C15:identical-query-unanswered",
+                        "a well-formed non-QU query (item %d, t=%d ms, from %s:%d) got no reply although the last time a byte-identical datagram was answered was %s"
+                        % (f["index"], f["t"], f["src"][0], f["src"][1], "never" if last_ans is None else "%d ms earlier" % (f["t"] - last_ans))))
+            break
     if obs.get("canary_c") != ["h", "l"]:
         bad.append(("C15:canary-reannouncement-unseen", "after a well-formed announcement of the instance that was announced/withdrawn inside the stream, the browsers whose "
                     "latest Added/Removed callback for it is Added are %s, expected both" % obs.get("canary_c")))
